@@ -15,6 +15,7 @@ import (
 	"math/big"
 	"math/rand/v2"
 	"os"
+	"os/exec"
 	"strconv"
 	"strings"
 
@@ -703,14 +704,60 @@ func rsZk(e *Env) {
 			e.Obs("%s", cls)
 			e.Oracle("zk_binds", cls != "ok", "class=other_proof proof for another shard hash verified")
 		}
-		// malformed proof bytes: error, not panic
+		// malformed proof bytes: error, never acceptance. Bits that change the LAYOUT of the encoding (the
+		// "uncompressed" flags of Ar/Bs/Krs in bytes 0/32/96 and the length prefix of Commitments in 128..131)
+		// are handled separately below, in a child process: gnark allocates from that prefix before validating.
 		bad := append([]byte{}, proof...)
-		bad[r.N(len(bad))] ^= 0x40
+		pos := r.N(len(bad))
+		for pos == 0 || pos == 32 || pos == 96 || (pos >= 128 && pos < 132) {
+			pos = r.N(len(bad))
+		}
+		bad[pos] ^= 1 << uint(r.N(8))
 		cls = z.verify(bad, m)
 		e.Stat("zkverify.corrupt_proof." + cls)
 		e.Oracle("no_panic", cls != "panic", "corrupted proof bytes")
 		e.Oracle("zk_corrupt_proof_rejected", cls != "ok", "a proof with one flipped bit verified")
+		if k == 0 && len(proof) >= 132 {
+			crafted := append([]byte{}, proof...)
+			copy(crafted[128:132], []byte{0xff, 0xff, 0xff, 0xff})
+			out := decodeInChild(e, crafted)
+			e.In("zkdecode %s", hx(crafted))
+			e.Stat("zkdecode.crafted_len." + out)
+			e.Oracle("zk_proof_decode_bounded", out == "err", "outcome=%s decoding a %d-byte proof whose commitment count field says 2^32-1 (Proof.ReadFrom as in Msg/SubmitValidityProof, child process with 6 GiB address space)", out, len(crafted))
+		}
 	}
+}
+
+// decodeInChild runs `Proof.ReadFrom(bz)` (the first thing Msg/SubmitValidityProof does with msg.Proofs[i]) in a child
+// process whose address space is limited, because a Go out-of-memory is a fatal error that cannot be recovered.
+func decodeInChild(e *Env, bz []byte) string {
+	f, err := os.CreateTemp("", "svh-zkdecode-*.ops")
+	if err != nil {
+		return "infra"
+	}
+	defer os.Remove(f.Name())
+	fmt.Fprintf(f, "zkdecode %s\n", hx(bz))
+	f.Close()
+	self, err := os.Executable()
+	if err != nil {
+		return "infra"
+	}
+	cmd := exec.Command("sh", "-c", `ulimit -v 6291456; exec "$0" -replay "$1" rs`, self, f.Name())
+	out, err := cmd.CombinedOutput()
+	so := string(out)
+	switch {
+	case strings.Contains(so, "out of memory") || strings.Contains(so, "cannot allocate memory"):
+		return "fatal_oom"
+	case err != nil:
+		return "crash"
+	case strings.Contains(so, "\nerr\n"):
+		return "err"
+	case strings.Contains(so, "\nok\n"):
+		return "ok"
+	case strings.Contains(so, "\npanic\n"):
+		return "panic"
+	}
+	return "unknown"
 }
 
 // ---------------------------------------------------------------------------------------------- replay
@@ -784,6 +831,13 @@ func rsReplay(e *Env) {
 				}
 				e.Oracle("assign_distinct_in_range", good, "n=%d t=%d -> %s %v", n, th, cls, out)
 			}
+		case t[0] == "zkdecode" && len(t) == 2:
+			e.In("zkdecode %s", t[1])
+			cls := guard3(func() error {
+				_, err := (&groth16bn254.Proof{}).ReadFrom(bytes.NewReader(unhx(t[1])))
+				return err
+			})
+			e.Obs("%s", cls)
 		case (t[0] == "zkverify" || t[0] == "zkprove") && len(t) == 4:
 			if z == nil {
 				if z = zkSetup(e); z == nil {
